@@ -20,9 +20,12 @@ def run(ctx):
     # non-vacuity: a receiver treating an extended delta as absolute time disagrees with the sender
     ctx.tlc("rtmp", "MC_RtmpChunk", "MC_Chunk_ts_deviation.cfg", expect_violation="DecodeOk", count_states=False)
     cases = os.path.join(ctx.out, "cases.ndjson")
-    gens = list(FAMILIES) + (["scs3"] if t == "quick" else [])
+    gens = list(FAMILIES) + ["tsmulti"] + (["scs3"] if t == "quick" else [])
     for f in gens:
         ctx.tlc("rtmp", "MC_RtmpChunk", "Gen_Chunk_%s.%s.cfg" % (f, t), cases_to=cases, timeout=1500, count_states=False)
+    if t == "thorough":
+        # many chunk streams on one connection (1100 streams, each used twice: fmt 0 then fmt 1)
+        ctx.tlc("rtmp", "MC_RtmpChunk", "Gen_Chunk_many.cfg", cases_to=cases, timeout=600, count_states=False, workers=1)
     if t == "thorough":
         ctx.exhaustive = False
         ctx.tlc("rtmp", "MC_RtmpChunk", "Gen_Chunk_sim.cfg", cases_to=cases, simulate=3000, depth=60, workers=1, timeout=900)
